@@ -141,6 +141,9 @@ def process(ctx, scs, seeds):
                 if 'error' in r:
                     ctx.fail('battery-runs', {'seed': s, 'scenario': sc}, r)
                     continue
+                if r.get('one_object_bad'):
+                    ctx.fail('a-reused-Wordnet-object-answers-like-a-fresh-one(earlier-read-only-queries-leave-no-trace)',
+                             {'seed': s, 'scenario': sc}, {'calls [method, arguments, reused, fresh]': r['one_object_bad']})
                 if not r['repeat_equal']:
                     ctx.fail('repeated-calls-in-one-process-give-identical-results', {'seed': s, 'scenario': sc}, {})
                 if 'error' not in ref and r['first'] != ref['first']:
